@@ -19,6 +19,7 @@ var validateMods = [][]string{
 	{"--dialect", "mysql"},
 	{"--output-file", "report.out"},
 	{"--stats"},
+	{"--check"}, // documented alias of --quiet
 }
 
 func validateFlagSets(thorough bool) [][]string {
@@ -116,7 +117,7 @@ func enumValidate(e *common.Enum) {
 	for _, f := range x {
 		extra = append(extra, []file{f}, []file{b[0], f}, []file{f, b[3]})
 	}
-	extra = append(extra, []file{x[0], x[1], x[4]})
+	extra = append(extra, []file{x[0], x[1], x[4]}, []file{missingFile}, []file{b[0], missingFile}, []file{missingFile, b[3]})
 	for _, fl := range validateFlagSets(e.Thorough()) {
 		vf := parseVFlags(fl)
 		var sets [][]file
@@ -226,6 +227,10 @@ func validateFiles(c *common.Ctx, fl []string, files []file) {
 	vf := parseVFlags(fl)
 	var vs []verdict
 	for _, f := range files {
+		if f.missing() {
+			vs = append(vs, reject)
+			continue
+		}
 		vs = append(vs, validateVerdict(f.Content, vf))
 	}
 	ov := overall(vs)
